@@ -514,7 +514,7 @@ impl Check for C10 {
         out.into_iter().map(|x| serde_json::to_value(x).unwrap()).collect()
     }
     fn rule_text(&self) -> String {
-        "1..6 records (header without LF not ending in CR incl. non-UTF-8 bytes; sequence without LF/CR/'>' incl. empty; width 1, == length, a divisor of the length, or random; 0..10 chunk boundaries incl. empty chunks and boundaries exactly at line ends), each written through one of 16 entry points (write_to, write_parts, write_wrap, write_head+write_seq / write_wrap_seq / write_seq_iter / write_wrap_seq_iter with exact-size and with filter() iterators, write_id_desc+..., OwnedRecord::write/write_wrap, RefRecord::write/write_wrap on records parsed from LF and from CRLF text) into four sinks: one that accepts everything, a SimSink with short writes and Interrupted, a SimSink with a gathering write_vectored that stops anywhere inside any slice, and a small BufWriter over a scripted SimSink; 1 in 120 sequences has a length at or next to a multiple of 64..65536. Oracle: bytes independent of the sink; header line; wrapped shape; whole vs chunked identical for non-empty sequences; everything re-parsed through the real fasta::Reader over a SimSource with random capacity/chunking equals what was written. Weak fit: apart from the sink/source seams this is a pure function of (head, seq, width, chunking). distinct_nontrivial counts distinct (output bytes, sink script).".into()
+        "1..6 records (header without LF not ending in CR incl. non-UTF-8 bytes; sequence without LF/CR/'>' incl. empty; width 1, == length, a divisor of the length, random, or (1 in 40) at the far end of usize; 0..10 chunk boundaries incl. empty chunks and boundaries exactly at line ends), each written through one of 16 entry points (write_to, write_parts, write_wrap, write_head+write_seq / write_wrap_seq / write_seq_iter / write_wrap_seq_iter with exact-size and with filter() iterators, write_id_desc+..., OwnedRecord::write/write_wrap, RefRecord::write/write_wrap on records parsed from LF and from CRLF text) into four sinks: one that accepts everything, a SimSink with short writes and Interrupted, a SimSink with a gathering write_vectored that stops anywhere inside any slice, and a small BufWriter over a scripted SimSink; 1 in 120 sequences has a length at or next to a multiple of 64..65536. One record in three is first written into a sink that fails at its k-th call: if the write function nevertheless returns Ok(()), the sink must hold the complete record. Oracle: bytes independent of the sink; header line; wrapped shape; whole vs chunked identical for non-empty sequences; everything re-parsed through the real fasta::Reader over a SimSource with random capacity/chunking equals what was written. Weak fit: apart from the sink/source seams this is a pure function of (head, seq, width, chunking). distinct_nontrivial counts distinct (output bytes, sink script).".into()
     }
     fn assumptions(&self) -> Vec<String> {
         vec!["no schedule or crash in this property; the simulator contributes the sink seam and the re-read through the source seam".into()]
@@ -837,7 +837,7 @@ impl Check for C11 {
         out.into_iter().map(|x| serde_json::to_value(x).unwrap()).collect()
     }
     fn rule_text(&self) -> String {
-        "two scenario kinds. (a) 1..6 FASTQ records (header incl. non-UTF-8 bytes, equally long sequence/quality without LF/CR, quality bytes incl. '@' '+' '>') written through write_to / write_parts / OwnedRecord::write / RefRecord::write into four sinks (accept-all, short writes + Interrupted, gathering write_vectored with short writes, small BufWriter over a scripted sink; all must receive the same bytes), re-parsed through the real fastq::Reader over a SimSource with random capacity/chunking. (b) well-formed LF or CRLF inputs of both formats, with/without final terminator, trailing blank lines, read via next() or record sets at random capacity/chunking; every record handed out is written with write_unchanged into a SimSink; FASTQ: concatenation == input with a final terminator added and trailing blank lines dropped; FASTA: every output re-parses to the identical record and the concatenation equals the input up to blank lines and the final terminator. Non-trivial: refill/growth on the read side or short writes on the sink side; distinct by content hash.".into()
+        "two scenario kinds. (a) 1..6 FASTQ records (header incl. non-UTF-8 bytes, equally long sequence/quality without LF/CR, quality bytes incl. '@' '+' '>') written through write_to / write_parts / OwnedRecord::write / RefRecord::write into four sinks (accept-all, short writes + Interrupted, gathering write_vectored with short writes, small BufWriter over a scripted sink; all must receive the same bytes; one record in three first goes into a sink that fails at its k-th call - a write function that then returns Ok(()) must have delivered the whole record), re-parsed through the real fastq::Reader over a SimSource with random capacity/chunking. (b) well-formed LF or CRLF inputs of both formats, with/without final terminator, trailing blank lines, read via next() or record sets at random capacity/chunking; every record handed out is written with write_unchanged into a SimSink; FASTQ: concatenation == input with a final terminator added and trailing blank lines dropped; FASTA: every output re-parses to the identical record and the concatenation equals the input up to blank lines and the final terminator. Non-trivial: refill/growth on the read side or short writes on the sink side; distinct by content hash.".into()
     }
     fn assumptions(&self) -> Vec<String> {
         vec!["weak-to-medium fit: the reader side is a stream surface (capacity x chunking decides where records sit in the buffer), the writer side only has the sink seam".into()]
@@ -1338,7 +1338,7 @@ impl Check for C18 {
         out
     }
     fn rule_text(&self) -> String {
-        "uniform records (same byte length, line count and id width; LF or CRLF; FASTA 0..5 lines, FASTQ), capacity of 2..6 records plus a remainder, chunk script with short reads and Interrupted, warm-up of 4..40 calls, then a measured window of 50..5000 calls of one of four kinds - next(); read_record_set() into one reused set; read_record_set_exact(1); (k-1) next() calls alternating with one read_record_set() - iterating every record handed out; variants: mixed sizes (records that nearly fill a buffer of up to ~2 KiB with tiny ones in between), FASTA records of 1000..5200 lines, and two readers of very different capacity taking turns on one record set. A counting #[global_allocator] (thread-local, armed only around the window) must count 0 allocations/reallocations and the recording policy 0 grow_to calls. A window batch holding more records than any warm-up batch restarts the window (a larger batch may legitimately grow the set's offset vectors). distinct_nontrivial = distinct scenario parameter tuples.".into()
+        "uniform records (same byte length, line count and id width; LF or CRLF; FASTA 0..5 lines, FASTQ), capacity of 2..6 records plus a remainder, chunk script with short reads and Interrupted, warm-up of 4..40 calls, then a measured window of 50..5000 calls of one of four kinds - next(); read_record_set() into one reused set; read_record_set_exact(1); (k-1) next() calls alternating with one read_record_set() - iterating every record handed out; variants: mixed sizes (records that nearly fill, or exactly fill, a buffer of up to ~2 KiB with tiny ones in between), FASTA records of 1000..5200 lines, and two readers of very different capacity taking turns on one record set. A counting #[global_allocator] (thread-local, armed only around the window) must count 0 allocations/reallocations and the recording policy 0 grow_to calls. A window batch holding more records than any warm-up batch restarts the window (a larger batch may legitimately grow the set's offset vectors). distinct_nontrivial = distinct scenario parameter tuples.".into()
     }
     fn assumptions(&self) -> Vec<String> {
         vec![
